@@ -54,23 +54,26 @@ theorem lookupS_mem {α} {k : String} {l : List (String × α)} {v : α} (h : lo
 /-! ## state relation -/
 
 /-- The C-side state and the IL-side state agree on everything observable; every C local has the
-    same value on the IL side (the IL side has more locals: immediates by letter, `h_tmpN`). -/
+    same value on the IL side (the IL side has more locals: immediates by letter, `h_tmpN`).
+    The two `imm` components are NOT related here: the immediates are an input of an instruction (its encoding), not
+    an observable output, and after an assignment to an immediate (`riV = riV & ~3`) the C side holds the new value
+    in `σC.imm` while the IL side holds it in the LOCAL of the letter (`MState.imm` is never written by an effect);
+    that correspondence is `Inv.immVal`.  The two sides START from the same `imm` (one initial state). -/
 structure StRel (σC σIL : MState) : Prop where
   cur : σC.cur = σIL.cur
   new : σC.new = σIL.new
   written : σC.written = σIL.written
   mem : σC.mem = σIL.mem
-  imm : σC.imm = σIL.imm
   pktAddr : σC.pktAddr = σIL.pktAddr
   stores : σC.stores = σIL.stores
   locals : ∀ n v, lookupS n σC.locals = some v → lookupS n σIL.locals = some v
 
-theorem StRel.refl (σ : MState) : StRel σ σ := ⟨rfl, rfl, rfl, rfl, rfl, rfl, rfl, fun _ _ h => h⟩
+theorem StRel.refl (σ : MState) : StRel σ σ := ⟨rfl, rfl, rfl, rfl, rfl, rfl, fun _ _ h => h⟩
 
 /-- both sides set the same local to the same value -/
 theorem StRel.setBoth {σC σIL : MState} (h : StRel σC σIL) (n : String) (v : Val) :
     StRel { σC with locals := setLocal σC.locals n v } { σIL with locals := setLocal σIL.locals n v } := by
-  refine ⟨h.cur, h.new, h.written, h.mem, h.imm, h.pktAddr, h.stores, ?_⟩
+  refine ⟨h.cur, h.new, h.written, h.mem, h.pktAddr, h.stores, ?_⟩
   intro k w hk
   simp only [lookupS_setLocal] at hk ⊢
   split
@@ -81,7 +84,7 @@ theorem StRel.setBoth {σC σIL : MState} (h : StRel σC σIL) (n : String) (v :
 theorem StRel.setIL {σC σIL : MState} (h : StRel σC σIL) (n : String) (v : Val)
     (hn : lookupS n σC.locals = none) :
     StRel σC { σIL with locals := setLocal σIL.locals n v } := by
-  refine ⟨h.cur, h.new, h.written, h.mem, h.imm, h.pktAddr, h.stores, ?_⟩
+  refine ⟨h.cur, h.new, h.written, h.mem, h.pktAddr, h.stores, ?_⟩
   intro k w hk
   simp only [lookupS_setLocal]
   by_cases hkn : k = n
@@ -90,17 +93,38 @@ theorem StRel.setIL {σC σIL : MState} (h : StRel σC σIL) (n : String) (v : V
 
 /-! ## IL-side invariant -/
 
+/-- the IL-side state is TYPED: declared locals are bound to values of their declared width (if bound), every
+    registered immediate letter is bound to a 32-bit value, source operands are unwritten.  (Which value an immediate
+    letter holds is part of the two-state invariant `Inv.immVal` / of `ImmsCur`.) -/
 structure SInv (c : Ctx) (σ : MState) : Prop where
   typed : ∀ n t v, lookupS n c.types = some t → lookupS n σ.locals = some v →
             ∃ x : BitVec t.width, v = .bv t.width x
-  imms : ∀ l ∈ c.imms, lookupS l σ.locals = some (.bv 32 (BitVec.ofNat 32 (σ.imm l)))
+  imms : ∀ l ∈ c.imms, ∃ x : BitVec 32, lookupS l σ.locals = some (.bv 32 x)
   srcs : ∀ ov ∈ c.srcs, σ.written ov = false
 
-/-- whole invariant between the two sides -/
+/-- in the ONE state `σ` the local of every registered immediate letter holds the 32-bit value of `σ.imm` (the state
+    in which the expression theorem is applied: the IL-side state seen with the C side's current immediates) -/
+def ImmsCur (c : Ctx) (σ : MState) : Prop :=
+  ∀ l ∈ c.imms, lookupS l σ.locals = some (.bv 32 (BitVec.ofNat 32 (σ.imm l)))
+
+/-- whole invariant between the two sides.  `immVal`: the IL local of every registered immediate letter holds the
+    32-bit value of the C side's CURRENT immediate (`σC.imm`, which an assignment to the immediate changes; the IL side
+    reads immediates through `VARL(letter)` everywhere but in the `imm_assign` prologue).  `immFresh`: no C-side local
+    is named like a registered immediate letter. -/
 structure Inv (c : Ctx) (σC σIL : MState) : Prop where
   rel : StRel σC σIL
   inv : SInv c σIL
+  immVal : ∀ l ∈ c.imms, lookupS l σIL.locals = some (.bv 32 (BitVec.ofNat 32 (σC.imm l)))
   tmpFree : ∀ n, isTmp n = true → lookupS n σC.locals = none
+  immFresh : ∀ l ∈ c.imms, lookupS l σC.locals = none
+
+/-- the typed-state invariant does not mention `MState.imm` -/
+theorem SInv.withImm {c : Ctx} {σ : MState} (h : SInv c σ) (f : String → Nat) : SInv c { σ with imm := f } :=
+  ⟨h.typed, h.imms, h.srcs⟩
+
+/-- the IL-side state seen with the C side's current immediates satisfies `ImmsCur` -/
+theorem Inv.immsCur {c : Ctx} {σC σIL : MState} (h : Inv c σC σIL) : ImmsCur c { σIL with imm := σC.imm } :=
+  h.immVal
 
 theorem Ctx.ok_types {c : Ctx} (h : c.ok = true) {n : String} {t : CT} (hn : lookupS n c.types = some t) :
     isTmp n = false ∧ isSpecial n = false ∧ n ∉ c.imms := by
@@ -131,49 +155,67 @@ theorem SInv.setLocal {c : Ctx} {σ : MState} (h : SInv c σ) (n : String) (v : 
     simp only [lookupS_setLocal_ne this]
     exact h.imms l hl
 
+/-- the IL side sets a local that is neither declared nor an immediate letter (a hybrid temporary) -/
+theorem Inv.setIL {c : Ctx} {σC σIL : MState} (h : Inv c σC σIL) (n : String) (v : Val)
+    (hn : lookupS n σC.locals = none) (hty : ∀ t, lookupS n c.types ≠ some t) (himm : n ∉ c.imms) :
+    Inv c σC { σIL with locals := setLocal σIL.locals n v } := by
+  refine ⟨h.rel.setIL n v hn, h.inv.setLocal n v (fun t ht => absurd ht (hty t)) himm, ?_, h.tmpFree, h.immFresh⟩
+  intro l hl
+  have : l ≠ n := fun e => himm (e ▸ hl)
+  simp only [lookupS_setLocal_ne this]
+  exact h.immVal l hl
+
 /-! ## an expression depends only on the locals it reads -/
 
-structure AgreeOn (vs rs : List String) (σ1 σ2 : MState) : Prop where
+/-- the two states agree on the locals `vs`, the operand variables `rs` and the immediate letters `is` (and on
+    memory and the packet address) -/
+structure AgreeOn (vs rs is : List String) (σ1 σ2 : MState) : Prop where
   regs : ∀ ov ∈ rs, σ1.cur ov = σ2.cur ov ∧ σ1.new ov = σ2.new ov ∧ σ1.written ov = σ2.written ov
   mem : σ1.mem = σ2.mem
-  imm : σ1.imm = σ2.imm
+  imm : ∀ l ∈ is, σ1.imm l = σ2.imm l
   pktAddr : σ1.pktAddr = σ2.pktAddr
   locals : ∀ n ∈ vs, ∀ v, lookupS n σ1.locals = some v → lookupS n σ2.locals = some v
 
-theorem AgreeOn.mono {vs ws rs ts : List String} {σ1 σ2 : MState} (h : AgreeOn ws ts σ1 σ2)
-    (hs : ∀ n ∈ vs, n ∈ ws) (hr : ∀ n ∈ rs, n ∈ ts) : AgreeOn vs rs σ1 σ2 :=
-  ⟨fun ov ho => h.regs ov (hr ov ho), h.mem, h.imm, h.pktAddr, fun n hn v hv => h.locals n (hs n hn) v hv⟩
+theorem AgreeOn.mono {vs ws rs ts is js : List String} {σ1 σ2 : MState} (h : AgreeOn ws ts js σ1 σ2)
+    (hs : ∀ n ∈ vs, n ∈ ws) (hr : ∀ n ∈ rs, n ∈ ts) (hi : ∀ n ∈ is, n ∈ js) : AgreeOn vs rs is σ1 σ2 :=
+  ⟨fun ov ho => h.regs ov (hr ov ho), h.mem, fun l hl => h.imm l (hi l hl), h.pktAddr,
+   fun n hn v hv => h.locals n (hs n hn) v hv⟩
 
-theorem AgreeOn.left {vs ws rs ts : List String} {σ1 σ2 : MState} (h : AgreeOn (vs ++ ws) (rs ++ ts) σ1 σ2) :
-    AgreeOn vs rs σ1 σ2 :=
+theorem AgreeOn.left {vs ws rs ts is js : List String} {σ1 σ2 : MState}
+    (h : AgreeOn (vs ++ ws) (rs ++ ts) (is ++ js) σ1 σ2) : AgreeOn vs rs is σ1 σ2 :=
   h.mono (fun _ hn => List.mem_append_left _ hn) (fun _ hn => List.mem_append_left _ hn)
-theorem AgreeOn.right {vs ws rs ts : List String} {σ1 σ2 : MState} (h : AgreeOn (vs ++ ws) (rs ++ ts) σ1 σ2) :
-    AgreeOn ws ts σ1 σ2 :=
+    (fun _ hn => List.mem_append_left _ hn)
+theorem AgreeOn.right {vs ws rs ts is js : List String} {σ1 σ2 : MState}
+    (h : AgreeOn (vs ++ ws) (rs ++ ts) (is ++ js) σ1 σ2) : AgreeOn ws ts js σ1 σ2 :=
   h.mono (fun _ hn => List.mem_append_right _ hn) (fun _ hn => List.mem_append_right _ hn)
+    (fun _ hn => List.mem_append_right _ hn)
 
-theorem AgreeOn.trans {vs rs : List String} {σ1 σ2 σ3 : MState} (h1 : AgreeOn vs rs σ1 σ2) (h2 : AgreeOn vs rs σ2 σ3) :
-    AgreeOn vs rs σ1 σ3 :=
+theorem AgreeOn.trans {vs rs is : List String} {σ1 σ2 σ3 : MState} (h1 : AgreeOn vs rs is σ1 σ2)
+    (h2 : AgreeOn vs rs is σ2 σ3) : AgreeOn vs rs is σ1 σ3 :=
   ⟨fun ov ho => ⟨(h1.regs ov ho).1.trans (h2.regs ov ho).1, (h1.regs ov ho).2.1.trans (h2.regs ov ho).2.1,
       (h1.regs ov ho).2.2.trans (h2.regs ov ho).2.2⟩,
-   h1.mem.trans h2.mem, h1.imm.trans h2.imm, h1.pktAddr.trans h2.pktAddr,
+   h1.mem.trans h2.mem, fun l hl => (h1.imm l hl).trans (h2.imm l hl), h1.pktAddr.trans h2.pktAddr,
    fun n hn v hv => h2.locals n hn v (h1.locals n hn v hv)⟩
 
-theorem StRel.agreeOn {σC σIL : MState} (h : StRel σC σIL) (vs rs : List String) : AgreeOn vs rs σC σIL :=
-  ⟨fun ov _ => ⟨congrFun h.cur ov, congrFun h.new ov, congrFun h.written ov⟩, h.mem, h.imm, h.pktAddr,
+/-- the C-side state agrees with the IL-side state SEEN WITH THE C SIDE'S CURRENT IMMEDIATES on everything an
+    expression can read -/
+theorem StRel.agreeOn {σC σIL : MState} (h : StRel σC σIL) (vs rs is : List String) :
+    AgreeOn vs rs is σC { σIL with imm := σC.imm } :=
+  ⟨fun ov _ => ⟨congrFun h.cur ov, congrFun h.new ov, congrFun h.written ov⟩, h.mem, fun _ _ => rfl, h.pktAddr,
    fun n _ v hv => h.locals n v hv⟩
 
-theorem readRegC_congr {σ1 σ2 : MState} {vs rs} (h : AgreeOn vs rs σ1 σ2) (n k t) (hm : opvarOf n k ∈ rs) :
+theorem readRegC_congr {σ1 σ2 : MState} {vs rs is} (h : AgreeOn vs rs is σ1 σ2) (n k t) (hm : opvarOf n k ∈ rs) :
     readRegC σ1 n k t = readRegC σ2 n k t := by
   obtain ⟨h1, h2, h3⟩ := h.regs _ hm
   simp only [readRegC, h1, h2, h3, h.pktAddr]
 
 mutual
 theorem evalC_congr (ms : MacroSem) {σ1 σ2 : MState} :
-    (e : CExpr) → {v : Val} → AgreeOn (readVars e) (readRegs e) σ1 σ2 → evalC ms σ1 e = .ok v → evalC ms σ2 e = .ok v
+    (e : CExpr) → {v : Val} → AgreeOn (readVars e) (readRegs e) (readImms e) σ1 σ2 → evalC ms σ1 e = .ok v → evalC ms σ2 e = .ok v
   | .reg n k t, v, ha, h => by
       simp only [evalC] at h ⊢; rw [← readRegC_congr ha n k t (by simp [readRegs])]; exact h
   | .imm l s, v, ha, h => by
-      simp only [evalC] at h ⊢; rw [← ha.imm]; exact h
+      simp only [evalC] at h ⊢; rw [← ha.imm l (by simp [readImms])]; exact h
   | .lit x hx sfx, v, ha, h => by
       simp only [evalC] at h ⊢; exact h
   | .var n t, v, ha, h => by
@@ -186,42 +228,42 @@ theorem evalC_congr (ms : MacroSem) {σ1 σ2 : MState} :
   | .cast t e, v, ha, h => by
       simp only [evalC] at h ⊢
       obtain ⟨v1, h1, h⟩ := bind_ok h
-      exact bind_ok_of (evalC_congr ms e (by simpa [readVars, readRegs] using ha) h1) h
+      exact bind_ok_of (evalC_congr ms e (by simpa [readVars, readRegs, readImms] using ha) h1) h
   | .un op e, v, ha, h => by
       simp only [evalC] at h ⊢
       obtain ⟨v1, h1, h⟩ := bind_ok h
-      exact bind_ok_of (evalC_congr ms e (by simpa [readVars, readRegs] using ha) h1) h
+      exact bind_ok_of (evalC_congr ms e (by simpa [readVars, readRegs, readImms] using ha) h1) h
   | .not e, v, ha, h => by
       simp only [evalC] at h ⊢
       obtain ⟨v1, h1, h⟩ := bind_ok h
-      exact bind_ok_of (evalC_congr ms e (by simpa [readVars, readRegs] using ha) h1) h
+      exact bind_ok_of (evalC_congr ms e (by simpa [readVars, readRegs, readImms] using ha) h1) h
   | .bin op a b, v, ha, h => by
       simp only [evalC] at h ⊢
-      simp only [readVars, readRegs] at ha
+      simp only [readVars, readRegs, readImms] at ha
       obtain ⟨v1, h1, h⟩ := bind_ok h
       obtain ⟨v2, h2, h⟩ := bind_ok h
       exact bind_ok_of (evalC_congr ms a ha.left h1) (bind_ok_of (evalC_congr ms b ha.right h2) h)
   | .shift op a b, v, ha, h => by
       simp only [evalC] at h ⊢
-      simp only [readVars, readRegs] at ha
+      simp only [readVars, readRegs, readImms] at ha
       obtain ⟨v1, h1, h⟩ := bind_ok h
       obtain ⟨v2, h2, h⟩ := bind_ok h
       exact bind_ok_of (evalC_congr ms a ha.left h1) (bind_ok_of (evalC_congr ms b ha.right h2) h)
   | .cmp op a b, v, ha, h => by
       simp only [evalC] at h ⊢
-      simp only [readVars, readRegs] at ha
+      simp only [readVars, readRegs, readImms] at ha
       obtain ⟨v1, h1, h⟩ := bind_ok h
       obtain ⟨v2, h2, h⟩ := bind_ok h
       exact bind_ok_of (evalC_congr ms a ha.left h1) (bind_ok_of (evalC_congr ms b ha.right h2) h)
   | .log op a b, v, ha, h => by
       simp only [evalC] at h ⊢
-      simp only [readVars, readRegs] at ha
+      simp only [readVars, readRegs, readImms] at ha
       obtain ⟨v1, h1, h⟩ := bind_ok h
       obtain ⟨v2, h2, h⟩ := bind_ok h
       exact bind_ok_of (evalC_congr ms a ha.left h1) (bind_ok_of (evalC_congr ms b ha.right h2) h)
   | .tern c a b, v, ha, h => by
       simp only [evalC] at h ⊢
-      simp only [readVars, readRegs] at ha
+      simp only [readVars, readRegs, readImms] at ha
       obtain ⟨v0, h0, h⟩ := bind_ok h
       obtain ⟨b0, hb0, h⟩ := bind_ok h
       obtain ⟨v1, h1, h⟩ := bind_ok h
@@ -230,7 +272,7 @@ theorem evalC_congr (ms : MacroSem) {σ1 σ2 : MState} :
         (bind_ok_of (evalC_congr ms a ha.right.left h1) (bind_ok_of (evalC_congr ms b ha.right.right h2) h)))
   | .macro name args ret params, v, ha, h => by
       simp only [evalC] at h ⊢
-      simp only [readVars, readRegs] at ha
+      simp only [readVars, readRegs, readImms] at ha
       obtain ⟨vs, h1, h⟩ := bind_ok h
       exact bind_ok_of (evalCArgs_congr ms args params ha h1) h
   | .load s w t, v, ha, h => by
@@ -244,13 +286,13 @@ theorem evalC_congr (ms : MacroSem) {σ1 σ2 : MState} :
   | .call _ _ _ _, v, ha, h => by simp [evalC] at h
   | .stmtexpr _ _ _, v, ha, h => by simp [evalC] at h
 theorem evalCArgs_congr (ms : MacroSem) {σ1 σ2 : MState} :
-    (as : List CExpr) → (ps : List CT) → {vs : List Val} → AgreeOn (readVarsList as) (readRegsList as) σ1 σ2 →
+    (as : List CExpr) → (ps : List CT) → {vs : List Val} → AgreeOn (readVarsList as) (readRegsList as) (readImmsList as) σ1 σ2 →
       evalCArgs ms σ1 as ps = .ok vs → evalCArgs ms σ2 as ps = .ok vs
   | [], _, vs, ha, h => by simp only [evalCArgs] at h ⊢; exact h
   | _ :: _, [], vs, ha, h => by simp [evalCArgs] at h
   | a :: as, p :: ps, vs, ha, h => by
       simp only [evalCArgs] at h ⊢
-      simp only [readVarsList, readRegsList] at ha
+      simp only [readVarsList, readRegsList, readImmsList] at ha
       obtain ⟨v1, h1, h⟩ := bind_ok h
       obtain ⟨v2, h2, h⟩ := bind_ok h
       obtain ⟨v3, h3, h⟩ := bind_ok h
@@ -261,11 +303,19 @@ theorem Inv.setBoth {c : Ctx} {σC σIL : MState} (h : Inv c σC σIL) (n : Stri
     (hty : ∀ t, lookupS n c.types = some t → ∃ x : BitVec t.width, v = .bv t.width x)
     (himm : n ∉ c.imms) (htmp : isTmp n = false) :
     Inv c { σC with locals := setLocal σC.locals n v } { σIL with locals := setLocal σIL.locals n v } := by
-  refine ⟨h.rel.setBoth n v, h.inv.setLocal n v hty himm, ?_⟩
-  intro k hk
-  have : k ≠ n := fun e => by subst e; rw [htmp] at hk; cases hk
-  simp only [lookupS_setLocal_ne this]
-  exact h.tmpFree k hk
+  refine ⟨h.rel.setBoth n v, h.inv.setLocal n v hty himm, ?_, ?_, ?_⟩
+  · intro l hl
+    have : l ≠ n := fun e => himm (e ▸ hl)
+    simp only [lookupS_setLocal_ne this]
+    exact h.immVal l hl
+  · intro k hk
+    have : k ≠ n := fun e => by subst e; rw [htmp] at hk; cases hk
+    simp only [lookupS_setLocal_ne this]
+    exact h.tmpFree k hk
+  · intro l hl
+    have : l ≠ n := fun e => himm (e ▸ hl)
+    simp only [lookupS_setLocal_ne this]
+    exact h.immFresh l hl
 
 /-- a declared local: setting it to a value of the declared width keeps the invariant -/
 theorem Inv.setDeclared {c : Ctx} {σC σIL : MState} (h : Inv c σC σIL) (hc : c.ok = true) {n : String} {t : CT}
@@ -300,8 +350,8 @@ theorem isTmp_tmp (n : Nat) : isTmp s!"h_tmp{n}" = true := by
 theorem Inv.store {c : Ctx} {σC σIL : MState} (h : Inv c σC σIL) (a v k : Nat) :
     Inv c { σC with mem := storeBytes σC.mem a v k, stores := a :: σC.stores }
           { σIL with mem := storeBytes σIL.mem a v k, stores := a :: σIL.stores } := by
-  obtain ⟨r, i, t⟩ := h
-  refine ⟨⟨r.cur, r.new, r.written, ?_, r.imm, r.pktAddr, ?_, r.locals⟩, ⟨i.typed, i.imms, i.srcs⟩, t⟩
+  obtain ⟨r, i, iv, t, fr⟩ := h
+  refine ⟨⟨r.cur, r.new, r.written, ?_, r.pktAddr, ?_, r.locals⟩, ⟨i.typed, i.imms, i.srcs⟩, iv, t, fr⟩
   · simp only [r.mem]
   · simp only [r.stores]
 
@@ -312,14 +362,41 @@ theorem Inv.writeReg {c : Ctx} {σC σIL : MState} (h : Inv c σC σIL) (ov : St
                     written := fun q => if q == ov then true else σC.written q }
           { σIL with new := fun q => if q == ov then x else σIL.new q,
                      written := fun q => if q == ov then true else σIL.written q } := by
-  obtain ⟨r, i, t⟩ := h
-  refine ⟨⟨r.cur, ?_, ?_, r.mem, r.imm, r.pktAddr, r.stores, r.locals⟩, ⟨i.typed, i.imms, ?_⟩, t⟩
+  obtain ⟨r, i, iv, t, fr⟩ := h
+  refine ⟨⟨r.cur, ?_, ?_, r.mem, r.pktAddr, r.stores, r.locals⟩, ⟨i.typed, i.imms, ?_⟩, iv, t, fr⟩
   · simp only [r.new]
   · simp only [r.written]
   · intro q hq
     have : q ≠ ov := fun e => hsrc (e ▸ hq)
     simp only [beq_iff_eq, this, ↓reduceIte]
     exact i.srcs q hq
+
+/-- an assignable immediate (`riV = e`): the C side updates its immediate, the IL side sets the local of the letter -/
+theorem Inv.writeImm {c : Ctx} {σC σIL : MState} (h : Inv c σC σIL) (hc : c.ok = true) {l : String} (hl : l ∈ c.imms)
+    (x : BitVec 32) :
+    Inv c { σC with imm := fun q => if q == l then x.toNat else σC.imm q }
+          { σIL with locals := setLocal σIL.locals l (.bv 32 x) } := by
+  obtain ⟨r, i, iv, t, fr⟩ := h
+  refine ⟨⟨r.cur, r.new, r.written, r.mem, r.pktAddr, r.stores, ?_⟩, ⟨?_, ?_, i.srcs⟩, ?_, t, fr⟩
+  · intro n v hn
+    have : n ≠ l := fun e => by subst e; rw [fr n hl] at hn; cases hn
+    simp only [lookupS_setLocal_ne this]
+    exact r.locals n v hn
+  · intro n ty v hn hv
+    have : n ≠ l := fun e => (Ctx.ok_types hc hn).2.2 (e ▸ hl)
+    simp only [lookupS_setLocal_ne this] at hv
+    exact i.typed n ty v hn hv
+  · intro l' hl'
+    by_cases e : l' = l
+    · subst e; exact ⟨x, lookupS_setLocal_self _ _ _⟩
+    · simp only [lookupS_setLocal_ne e]; exact i.imms l' hl'
+  · intro l' hl'
+    by_cases e : l' = l
+    · subst e
+      simp only [lookupS_setLocal_self, beq_self_eq_true, ↓reduceIte, BitVec.ofNat_toNat, BitVec.setWidth_eq]
+    · have e' : (l' == l) = false := by simp [e]
+      simp only [lookupS_setLocal_ne e, e', Bool.false_eq_true, ↓reduceIte]
+      exact iv l' hl'
 
 end C05
 end Rzil
